@@ -1,10 +1,188 @@
 /-
 C09 — The same data in different column layouts parses to the same row.
+
+Property theorems only (model: Rpft/RowParse.lean; lemmas: Rpft/Lemmas/RowStar.lean and the
+C07 development).
 -/
 import Rpft.Props.C07
+import Rpft.Lemmas.RowStar
 set_option linter.unusedSimpArgs false
 set_option linter.unusedVariables false
 namespace Rpft.Props.C09
-open Rpft Rpft.Row
+open Rpft Rpft.Row Rpft.Props.C07
+
+/-! ### spread vs packed -/
+
+/-- general statement: the parsed row does not depend on the (admissible) layout -/
+def layout_independent_full : Prop :=
+  ∀ (fs : List Field) (l₁ l₂ : Layout) (v : Val) (c₁ c₂ : Out),
+    wfFieldNames fs = true → Representable (plainTop fs) v = true →
+    Admissible { top := plainTop fs } l₁ = true → Admissible { top := plainTop fs } l₂ = true →
+    unparseRow { top := plainTop fs } l₁ v = .ok c₁ → unparseRow { top := plainTop fs } l₂ v = .ok c₂ →
+    parseRow { top := plainTop fs } c₁ = parseRow { top := plainTop fs } c₂
+
+/-- **Layout independence** (corollary of C07 for its proved family): a list given as
+`f.1, f.2, …` or as one `f` cell, a sub-record given as `f.a, f.b` or as one cell — per
+field independently — parse to the same row. -/
+theorem layout_independent_partial (fs : List Field) (l₁ l₂ : Layout) (v : Val) (c₁ c₂ : Out)
+    (hwf : wfFieldNames fs = true) (hfam : family fs = true)
+    (hr : Representable (plainTop fs) v = true)
+    (h₁ : Admissible { top := plainTop fs } l₁ = true) (h₂ : Admissible { top := plainTop fs } l₂ = true)
+    (hc₁ : unparseRow { top := plainTop fs } l₁ v = .ok c₁)
+    (hc₂ : unparseRow { top := plainTop fs } l₂ v = .ok c₂) :
+    parseRow { top := plainTop fs } c₁ = parseRow { top := plainTop fs } c₂ := by
+  obtain ⟨d₁, e₁, p₁⟩ := parse_unparse_partial fs l₁ v hwf hfam hr h₁
+  obtain ⟨d₂, e₂, p₂⟩ := parse_unparse_partial fs l₂ v hwf hfam hr h₂
+  rw [hc₁] at e₁; rw [hc₂] at e₂
+  cases e₁; cases e₂
+  rw [p₁, p₂]
+
+/-- non-vacuity: the example of C07 in two different layouts gives two different cell rows
+that parse to the same value -/
+example :
+    (match unparseRow { top := plainTop exFam } {} exFamVal,
+           unparseRow { top := plainTop exFam } { targets := ["xs".toList, "s".toList] } exFamVal with
+      | .ok c₁, .ok c₂ => c₁.length != c₂.length
+      | _, _ => false) = true := by decide +kernel
+
+/-! ### `*` columns -/
+
+/-- **Asterisk expansion**: a `*` column holding the list `[x₁ … xₙ]` stands for the `n`
+entries `….1.… ↦ x₁, …, ….n.… ↦ xₙ` (every `*` replaced by the index) -/
+theorem asterisk_expand (all : List (Str × ColVal)) (k : Str) (xs : List PV) :
+    expandCol all (k, Sum.inr (.list xs)) =
+      (enumFrom1 1 xs).map fun ie => (replace1 '*' (printNat ie.1) k, Sum.inr ie.2) := rfl
+
+/-- **Asterisk broadcast**, for every schema and every row: a single value in a `*` column
+is the same as the list of `n` copies of it, where `n` is the longest list among the `*`
+columns with the same prefix (at least 1) -/
+theorem asterisk_broadcast (pre post : List (Str × ColVal)) (k s : Str) :
+    expandAll (pre ++ [(k, Sum.inr (.atom s))] ++ post) =
+    expandAll (pre ++ [(k, Sum.inr (.list (List.replicate
+      (starLen (starPrefix k) (pre ++ [(k, Sum.inr (.atom s))] ++ post)) (.atom s))))] ++ post) := by
+  have hlen := fun pfx => (starLen_broadcast pre post k s pfx).symm
+  unfold expandAll
+  simp only [List.flatMap_append, List.flatMap_cons, List.flatMap_nil, List.append_nil]
+  rw [flatMap_congr_mem pre (fun a _ => expandCol_congr _ _ hlen a),
+    flatMap_congr_mem post (fun a _ => expandCol_congr _ _ hlen a)]
+  congr 2
+
+/-- non-vacuity / concrete instance: `from = "a"` with two conditions is `from = "a|a"` -/
+example :
+    expandAll [("e.*.f".toList, Sum.inr (.atom "a".toList)),
+      ("e.*.c".toList, Sum.inr (.list [.atom "x".toList, .atom "y".toList]))] =
+    [("e.1.f".toList, Sum.inr (.atom "a".toList)), ("e.2.f".toList, Sum.inr (.atom "a".toList)),
+     ("e.1.c".toList, Sum.inr (.atom "x".toList)), ("e.2.c".toList, Sum.inr (.atom "y".toList))] := by
+  decide +kernel
+
+/-- the broadcast length is taken per prefix: a longer list under another prefix is ignored -/
+example : starLen "e.".toList [("g.*".toList, Sum.inr (.list [.atom [], .atom [], .atom []])),
+    ("e.*.c".toList, Sum.inr (.list [.atom [], .atom []]))] = 2 := by decide
+
+/-! ### the flow sheet's short headers -/
+
+def msgHdr : Str := "message_text".toList
+def typeCol : Str := "type".toList
+
+/-- is `path` (segments; `*` or a number for a list index) a position of the schema? -/
+def validPath : Ty → List Str → Bool
+  | _, [] => true
+  | ty, seg :: rest =>
+    match ty with
+    | .list t => (seg = "*".toList || (pyInt seg).isSome) && validPath t rest
+    | .anyList => (seg = "*".toList || (pyInt seg).isSome) && rest.isEmpty
+    | .model fs h2f _ =>
+      match fieldLookup (remap h2f seg) fs with
+      | some f => validPath f.2.1 rest
+      | none => false
+    | _ => false
+
+/-- T1 side conditions (re-checked against the regenerated tables on every run): every short
+header of `basic_header_dict` leads to a position of the flow row schema; every target of
+`row_type_to_main_arg` is a position of the schema; the long forms are not themselves
+remapped; keys are unique; the type column is not a short header. -/
+theorem short_headers_are_valid_paths :
+    (∀ p ∈ Gen.flowBasicHeaderDict, validPath flowRowTy (splitDot p.2) = true) ∧
+    (∀ p ∈ Gen.flowRowTypeToMainArg, validPath flowRowTy (splitDot p.2) = true) ∧
+    (∀ p ∈ Gen.flowF2H, p.1 ∈ Gen.fieldNamesFlowRowModel ∨ p.1 = "webhook.body".toList) := by
+  decide +kernel
+
+theorem remap_tables_side_conditions :
+    (∀ p ∈ flowBasicHeaders, alookup p.1 flowBasicHeaders = some p.2 ∧
+      alookup p.2 flowBasicHeaders = none ∧ p.2 ≠ msgHdr ∧ p.1 ≠ typeCol ∧ p.2 ≠ typeCol ∧ p.1 ≠ msgHdr) ∧
+    (∀ p ∈ flowMainArg, alookup p.1 flowMainArg = some p.2 ∧
+      alookup p.2 flowBasicHeaders = none ∧ p.2 ≠ msgHdr ∧ p.2 ≠ typeCol) ∧
+    alookup msgHdr flowBasicHeaders = none ∧ msgHdr ≠ typeCol := by
+  decide +kernel
+
+theorem flow_main : flowRowSchema.ctxMain = some (msgHdr, typeCol, flowMainArg) := rfl
+theorem flow_basic : flowRowSchema.ctxBasic = flowBasicHeaders := rfl
+
+theorem flow_ctx (d₁ d₂ : List (Str × Str)) (h : alookup typeCol d₁ = alookup typeCol d₂) (k : Str) :
+    ctxRemap flowRowSchema d₁ k = ctxRemap flowRowSchema d₂ k := by
+  apply ctxRemap_ctx_congr
+  intro hd tcol tb hm
+  rw [flow_main] at hm
+  simp only [Option.some.injEq, Prod.mk.injEq] at hm
+  rw [← hm.2.1]
+  exact h
+
+theorem flow_id (d : List (Str × Str)) (k : Str) (h1 : alookup k flowBasicHeaders = none)
+    (h2 : k ≠ msgHdr) : ctxRemap flowRowSchema d k = .ok k := by
+  apply ctxRemap_id _ _ _ h1
+  intro hd tc tb hm
+  rw [flow_main] at hm
+  simp only [Option.some.injEq, Prod.mk.injEq] at hm
+  rw [← hm.1]
+  exact h2
+
+/-- **Short = long (context-free headers)**: for every entry `short ↦ long` of the source's
+`basic_header_dict` (`from ↦ edges.*.from_`, `condition ↦ edges.*.condition.value`,
+`condition_var ↦ edges.*.condition.variable`, `_nodeId ↦ node_uuid`, …), any cell text and any
+other columns, a row written with the short header parses exactly as the row written with
+the long header. (The long `*` forms are in turn the indexed columns `edges.k.…` by
+`asterisk_expand` / `asterisk_broadcast`.) -/
+theorem short_eq_long (p : Str × Str) (hp : p ∈ flowBasicHeaders) (pre post : List (Str × Str))
+    (c : Str) :
+    parseRow flowRowSchema (pre ++ [(p.1, c)] ++ post) =
+    parseRow flowRowSchema (pre ++ [(p.2, c)] ++ post) := by
+  obtain ⟨h1, h2, h3, h4, h5, _⟩ := remap_tables_side_conditions.1 p hp
+  apply parseRow_of_rekey_eq
+  apply rekey_header_swap
+  · exact flow_ctx _ _ (alookup_swap_key pre post p.1 p.2 typeCol c h4 h5)
+  · rw [ctxRemap_basic flowRowSchema _ p.1 p.2 h1, flow_id _ p.2 h2 h3]
+
+/-- **Short = long (main argument)**: `message_text` is the main-argument field selected by
+the row's `type` cell through the source's `row_type_to_main_arg` table. -/
+theorem message_text_eq_main_arg (p : Str × Str) (hp : p ∈ flowMainArg)
+    (pre post : List (Str × Str)) (c : Str)
+    (htype : alookup typeCol (pre ++ post) = some p.1) :
+    parseRow flowRowSchema (pre ++ [(msgHdr, c)] ++ post) =
+    parseRow flowRowSchema (pre ++ [(p.2, c)] ++ post) := by
+  obtain ⟨h1, h2, h3, h4⟩ := remap_tables_side_conditions.2.1 p hp
+  obtain ⟨h5, h6⟩ := remap_tables_side_conditions.2.2
+  apply parseRow_of_rekey_eq
+  apply rekey_header_swap
+  · exact flow_ctx _ _ (alookup_swap_key pre post msgHdr p.2 typeCol c h6 h4)
+  · have ht : alookup typeCol (pre ++ [(p.2, c)] ++ post) = some p.1 := by
+      rw [← htype]
+      simp [alookup_append, alookup, h4]
+    rw [ctxRemap_main flowRowSchema _ msgHdr typeCol flowMainArg flow_main h5 p.1 p.2 ht h1,
+      flow_id _ p.2 h2 h3]
+
+/-- non-vacuity: the tables are not empty and a concrete short row parses to an edge -/
+example : ("from".toList, "edges.*.from_".toList) ∈ flowBasicHeaders ∧
+    ("send_message".toList, "mainarg_message_text".toList) ∈ flowMainArg := by decide +kernel
+
+example :
+    (match parseRow flowRowSchema [("type".toList, "send_message".toList),
+        ("from".toList, "start".toList), ("condition".toList, "a|b".toList),
+        ("message_text".toList, "hi; there".toList)],
+      parseRow flowRowSchema [("type".toList, "send_message".toList),
+        ("edges.1.from".toList, "start".toList), ("edges.2.from".toList, "start".toList),
+        ("edges.1.condition.value".toList, "a".toList), ("edges.2.condition.value".toList, "b".toList),
+        ("mainarg_message_text".toList, "hi; there".toList)] with
+    | .ok a, .ok b => a == b
+    | _, _ => false) = true := by decide +kernel
 
 end Rpft.Props.C09
